@@ -13,6 +13,9 @@ type Group struct {
 
 var Groups = []Group{
 	{Name: "update", Props: []string{"C20", "C21", "C22", "C23", "C24"}, Gen: GenUpdate},
+	{Name: "raw", Props: []string{"C22"}, Gen: GenRaw},
+	{Name: "recover", Props: []string{"C25", "C21", "C20", "C22"}, Gen: GenRecover},
+	{Name: "upgrade", Props: []string{"C25", "C21", "C20", "C22"}, Gen: GenUpgrade},
 }
 
 // Viol is a property-level failure found by a monitor on the implementation.
